@@ -25,6 +25,8 @@ Phases == <<"argv", "options", "tmp", "parse", "detect", "copy", "golden",
 Faults == {"none", "input-missing", "input-is-directory", "command-missing",
            "command-not-a-file", "command-not-executable",
            "match-out-absent", "match-err-absent", "interrupt",
+           \* both match strings configured, one of them absent
+           "match-both-out-absent", "match-both-err-absent",
            \* the golden run itself exceeds an explicit time limit: it has
            \* no output, so a configured match string is absent from it
            "golden-timeout", "golden-timeout-match-out",
@@ -37,6 +39,7 @@ FaultPhase(f) ==
   CASE f \in {"input-missing", "input-is-directory", "command-missing",
               "command-not-a-file", "command-not-executable"} -> "options"
     [] f \in {"match-out-absent", "match-err-absent",
+              "match-both-out-absent", "match-both-err-absent",
               "golden-timeout-match-out", "golden-timeout-match-err"} -> "golden"
     [] f = "interrupt" -> "reduce"
     [] OTHER -> "report"
@@ -44,6 +47,7 @@ FaultPhase(f) ==
 Outcome(f) ==
   CASE f \in {"none", "golden-timeout", "undecodable-output"} -> "completed"
     [] f \in {"match-out-absent", "match-err-absent",
+              "match-both-out-absent", "match-both-err-absent",
               "golden-timeout-match-out", "golden-timeout-match-err"} -> "nomatch"
     [] f = "interrupt" -> "interrupted"
     [] OTHER -> "usage"
